@@ -139,6 +139,12 @@ def main():
                     traces.append(t)
                 # the meta-game over coalitions returns the same quantity
                 mg = MetaGame(fg, IncompleteCooperativeGame(n, computer(comp, r)), gapf)
+                bulk = None
+                if n == 3:
+                    try:
+                        bulk = [float(x) for x in mg.get_values()] if mg.number_of_players == len(expl) else None     # all 2^m meta coalitions at once
+                    except Exception:  # noqa: BLE001
+                        bulk = "exc"
                 for _ in range(4 if n >= 4 else 8):
                     tid += 1
                     t = base(tid, n, "meta", comp, r, gap, minimal, scale)
@@ -146,7 +152,10 @@ def main():
                     chosen = [expl[j] for j in range(len(expl)) if meta_id >> j & 1]
                     t.update({"hid": D.exact_arr(v, scale), "chosen": chosen})
                     try:
-                        t["val"] = gap_iv(mg.get_value(Coalition(meta_id)), n, gap, scale, M)
+                        one = mg.get_value(Coalition(meta_id))
+                        if bulk == "exc" or (bulk is not None and float(one).hex() != float(bulk[meta_id]).hex()) or (n == 3 and bulk is None):
+                            one = float("nan")               # the bulk form disagrees with the single form (or the meta game miscounts its players)
+                        t["val"] = gap_iv(one, n, gap, scale, M)
                     except D.DriverError:
                         raise
                     except Exception as ex:  # noqa: BLE001
